@@ -25,6 +25,10 @@ CHECKS = {
    text="Printed(file) in TextLog.tla does not mention the block size; the same TLC-generated call sequences and generated files as C02 are executed at every block size class (in-process 1..32, size+-1, 64, 4096; end-to-end 64, 65, 127..129, line length +-1, file size +-1, 8096/8097, 65536, 0xFFFFFF) and compared with the B-free oracle, never with 'the default run'. BlockZero.tla gives the one place where the design itself depends on B; TLC evaluates it on every instance and its verdict is compared with the code's Stage1 decision.",
    note="Known finding blockzero-reject (acceptance heuristic looks only inside block zero) is reported as KNOWN-FINDING for exactly the instances where both BlockZero.tla predicts rejection and the program reports a Stage1 rejection.",
    technique="TLA+ spec (B-free oracle + BlockZero transcription evaluated by TLC) + replay at every block-size class"),
+ "C03": dict(engine="BinSearch", category="model_checking", design_ref="DESIGN.md §6 C03",
+   text="BinSearch.tla transcribes the datetime binary search (fo_a/fo_b/try_fo loop, early return, Done branch, final same-offset disambiguation) and the stage-3 window walk; TLC checks for every chronological file (ties, multi-line messages) and every filter placement that the search terminates and returns FirstAtOrAfter(A) and that the walk emits exactly {m : A <= t <= B}. The real search's Probe events are validated against the transcription (TraceBinSearch.tla); generated files with tie groups and sub-second instants are run with windows before/between/exactly on/after instants and A = B at many block sizes, plain (binary search) and streamed (linear), in-process and through -a/-b, against the declarative Select.",
+   note="Text sources chronological; messages >= 2 bytes; find_sysline answers 'containing message' (measured; the search is not robust to the other answer, see BinSearch.tla). Record files, evtx and journals get their windows in C08/C10/C09.",
+   technique="TLA+ transcription checked by TLC against a declarative oracle + probe-trace validation + windowed replay"),
 }
 NA_REASON = "check not built yet in this session (work in progress; will be claimed when its machinery exists)"
 
